@@ -8,6 +8,7 @@ import (
 	"go/types"
 	"math/big"
 	"path"
+	"strconv"
 	"strings"
 
 	"golang.org/x/tools/go/ssa"
@@ -353,6 +354,24 @@ func (c *Ctx) evalExpr(e *Expr, env *Env) *Val {
 		if x == nil {
 			return nil
 		}
+		if x.K != VSlice && x.T != nil && isString(x.T) {
+			lo, hi := c.idxConst(0), sApp(c.strLenFn(), x.S)
+			if e.Args[1] != nil {
+				v := c.evalExpr(e.Args[1], env)
+				if v == nil {
+					return nil
+				}
+				lo = c.specIdx(v)
+			}
+			if e.Args[2] != nil {
+				v := c.evalExpr(e.Args[2], env)
+				if v == nil {
+					return nil
+				}
+				hi = c.specIdx(v)
+			}
+			return c.strSubSpec(x, lo, hi)
+		}
 		if x.K != VSlice {
 			c.specErr("slice expression on non-slice in spec")
 			return x
@@ -428,6 +447,30 @@ func (c *Ctx) evalIdent(name string, env *Env) *Val {
 	}
 	if v, ok := env.names[name]; ok {
 		return v
+	}
+	if name == "rangepos" && c.fn != nil {
+		// byte position of the function's string range iterator (unique one executed so far)
+		var found *ssa.Range
+		n := 0
+		for _, b := range c.fn.Blocks {
+			for _, in := range b.Instrs {
+				if r, ok := in.(*ssa.Range); ok && isString(r.X.Type()) {
+					if _, have := c.vals[r]; have {
+						found = r
+						n++
+					}
+				}
+			}
+		}
+		if n == 1 {
+			st := env.st
+			if env.inOld {
+				st = env.old
+			}
+			return c.strIterPos(found, st)
+		}
+		c.specErr("rangepos: the function has %d string range loops in scope", n)
+		return nil
 	}
 	if g, ok := c.P.CS.Ghosts[name]; ok && g.Kind == "var" {
 		return c.ghostRead(g, nil, env)
@@ -976,6 +1019,49 @@ func (c *Ctx) evalCall(e *Expr, env *Env) *Val {
 			st = env.old
 		}
 		return &Val{K: VScalar, T: boolT, S: sAnd(sNot(sEq(m.S, "0")), c.mapHas(st, mt, m.S, c.mapKeyTerm(mt, k)))}
+	case "beval", "leval":
+		// beval(x, lo, n) / leval(x, lo, n): the n elements x[lo..lo+n) of a slice, array or
+		// string read as one big-endian / little-endian unsigned number (wide); lo, n literal.
+		// Quantifier-free: a concatenation of n element reads.
+		if len(e.Args) != 3 || e.Args[1].Op != "num" || e.Args[2].Op != "num" {
+			c.specErr("%s(x, <literal lo>, <literal n>)", e.Name)
+			return nil
+		}
+		lo, _ := strconv.Atoi(e.Args[1].Name)
+		n, _ := strconv.Atoi(e.Args[2].Name)
+		if c.mode == "int" || n <= 0 {
+			c.specErr("%s: bv mode and n > 0 only", e.Name)
+			return nil
+		}
+		parts := make([]string, n)
+		total := 0
+		for k := 0; k < n; k++ {
+			ie := &Expr{Op: "idx", Args: []*Expr{e.Args[0], {Op: "num", Name: strconv.Itoa(lo + k)}}}
+			ev := c.evalIndex(ie, env)
+			if ev == nil {
+				return nil
+			}
+			bits, _, ok := intInfo(ev.T)
+			if !ok {
+				c.specErr("%s: element is not an integer", e.Name)
+				return nil
+			}
+			total += bits
+			if e.Name == "beval" {
+				parts[k] = ev.S
+			} else {
+				parts[n-1-k] = ev.S
+			}
+		}
+		if total >= c.wideBits() {
+			c.specErr("%s: %d bits do not fit into wide (%d bits, signed): raise opt wide", e.Name, total, c.wideBits())
+			return nil
+		}
+		s := parts[0]
+		if n > 1 {
+			s = "(concat " + strings.Join(parts, " ") + ")"
+		}
+		return &Val{K: VScalar, T: theWide, Wide: true, S: fmt.Sprintf("((_ zero_extend %d) %s)", c.wideBits()-total, s)}
 	case "bytesEq":
 		// bytesEq(s, t): slices have equal length and contents
 		a, b := arg(0), arg(1)
@@ -1071,6 +1157,8 @@ func (c *Ctx) ghostRead(g *GhostDecl, args []*Val, env *Env) *Val {
 		c.specErr("ghost %s: unknown type %s", g.Name, g.Ret)
 		return nil
 	}
+	_, retWide := rt.(*wideType)
+	mk := func(s string) *Val { return &Val{K: VScalar, T: rt, S: s, Wide: retWide} }
 	var terms, sorts []string
 	for i, a := range args {
 		if a.Lit != nil {
@@ -1090,10 +1178,10 @@ func (c *Ctx) ghostRead(g *GhostDecl, args []*Val, env *Env) *Val {
 		fn := quoteSym("G!" + g.Name)
 		if len(terms) == 0 {
 			c.declare(fn, c.scalarSort(rt))
-			return &Val{K: VScalar, T: rt, S: fn}
+			return mk(fn)
 		}
 		c.declareFun(fn, sorts, c.scalarSort(rt))
-		return &Val{K: VScalar, T: rt, S: sApp(fn, terms...)}
+		return mk(sApp(fn, terms...))
 	case "field", "var":
 		st := env.st
 		if env.inOld {
@@ -1105,7 +1193,7 @@ func (c *Ctx) ghostRead(g *GhostDecl, args []*Val, env *Env) *Val {
 		if len(terms) >= 1 {
 			key = terms[0]
 		}
-		return &Val{K: VScalar, T: rt, S: "(select " + c.lookup(st, name) + " " + key + ")"}
+		return mk("(select " + c.lookup(st, name) + " " + key + ")")
 	}
 	return nil
 }
@@ -1184,6 +1272,12 @@ func (c *Ctx) callPure(pf *PureFunc, e *Expr, env *Env) *Val {
 				return nil
 			}
 			body = c.coerceTo(body, rt)
+			if _, isW := rt.(*wideType); body.Wide && !isW && c.mode != "int" {
+				// literal branches of an ite are widened: bring the value back to the declared type
+				if bits, _, ok := intInfo(rt); ok {
+					body = &Val{K: VScalar, T: rt, S: fmt.Sprintf("((_ extract %d 0) %s)", bits-1, body.S)}
+				}
+			}
 			c.decls = append(c.decls, fmt.Sprintf("(%s %s (%s) %s %s)", kw, fn, strings.Join(formals, " "), rsorts[0], body.S))
 		}
 	}
@@ -1192,4 +1286,46 @@ func (c *Ctx) callPure(pf *PureFunc, e *Expr, env *Env) *Val {
 		res.Wide = true
 	}
 	return res
+}
+
+// strSubSpec: s[lo:hi] of a string in a contract expression. The facts about the substring
+// (length, bytes, identity of the whole-string slice) are stated under the guard that the
+// range is valid, so an out-of-range slice in a contract constrains nothing. Inside a
+// quantifier (bound variable in the term) no facts are added.
+func (c *Ctx) strSubSpec(base *Val, lo, hi string) *Val {
+	c.declareFun("ssub", []string{"Int", c.idxSort(), c.idxSort()}, "Int")
+	t := sApp("ssub", base.S, lo, hi)
+	v := &Val{K: VScalar, T: base.T, S: t}
+	if strings.Contains(t, "q!") {
+		return v
+	}
+	key := "ssubspec:" + t
+	if c.specFacts == nil {
+		c.specFacts = map[string]bool{}
+	}
+	if c.specFacts[key] {
+		return v
+	}
+	c.specFacts[key] = true
+	l := c.strLenFn()
+	bf := c.strByteFn()
+	is := c.idxSort()
+	var valid, rng string
+	if c.mode == "int" {
+		valid = sAnd("(<= 0 "+lo+")", "(<= "+lo+" "+hi+")", "(<= "+hi+" "+sApp(l, base.S)+")")
+		rng = sAnd("(<= 0 i)", "(< i "+c.idxSub(hi, lo)+")")
+	} else {
+		valid = sAnd("(bvule "+lo+" "+hi+")", "(bvule "+hi+" "+sApp(l, base.S)+")")
+		rng = "(bvult i " + c.idxSub(hi, lo) + ")"
+	}
+	// a constant names the term, so that the trigger below is a legal pattern even when the
+	// operands contain if-then-else
+	nm := c.fresh1("ssubspec", "Int")
+	c.asserts = append(c.asserts, sEq(nm, t))
+	c.asserts = append(c.asserts, sImp(valid, sAnd(
+		sEq(sApp(l, nm), c.idxSub(hi, lo)),
+		c.strWF(nm),
+		sImp(sAnd(sEq(lo, c.idxConst(0)), sEq(hi, sApp(l, base.S))), sEq(nm, base.S)),
+		fmt.Sprintf("(forall ((i %s)) (! (=> %s (= (%s %s i) (%s %s %s))) :pattern ((%s %s i))))", is, rng, bf, nm, bf, base.S, c.idxAdd(lo, "i"), bf, nm))))
+	return v
 }
